@@ -20,6 +20,7 @@ uniqueness of encodings over arbitrary decodable bytes beyond the INJ rules.
 (INJ, second half) between a read and the value returned, decoded data passes only through
 plumbing, conversion traits, constructors and a reviewed list of dependency constructors:
 no unreviewed (possibly normalising) transformation."""
+import json
 import re
 
 from .. import cfg, rules, codec, flow
@@ -423,6 +424,7 @@ def run(ctx):
     tag_tables(ctx, cs)
     no_discard(ctx, cs, closure)
     transforms(ctx, cs, closure)
+    short_reads(ctx)
     sizes(ctx, cs)
 
 
@@ -1166,3 +1168,30 @@ def transforms(ctx, cs, closure):
                             "(two wire encodings, one in-memory value) the message no longer re-encodes to the bytes received and signatures over them fail"
                          % (short_t(key), cfg.short(nm)), rules.where(fd, bb), fn=fd)
     ctx.floor("inj:transforms", n, 20, "calls applied to decoded data in decoders")
+
+
+def short_reads(ctx, prefix="inj"):
+    """Shared with C14: a decoder that runs out of input must fail with an EOF error — that is how `Frame::decode` and
+    `Deserializer::deserialize_next` tell a truncated message from a complete one.  `read_exact` guarantees it; a plain
+    `Read::read` (directly or through `Take`) returns `Ok(0)` at end of input, so a loop that stops on `Ok(0)` accepts a
+    short message as if it were complete."""
+    db = ctx.db
+    n = 0
+    for fd in db.all_fns():
+        if fd["crate"] != "radicle_node" or not re.search(r" as radicle_node::wire::Decode>::decode", db.root_of(fd)["key"]):
+            continue
+        for bb, t, c in db.calls(fd):
+            nm = c.get("n") or c.get("dn") or ""
+            if not re.search(r"^std::io::Read::(read|read_to_end|read_to_string|read_buf)$|as std::io::Read>::(read|read_to_end|read_to_string)$", nm):
+                continue
+            n += 1
+            k = "%s:short-read:%s" % (prefix, short_t(re.sub(r"^<(.*) as radicle_node::wire::Decode>::decode.*$", r"\1", db.root_of(fd)["key"])))
+            eof = any("UnexpectedEof" in json.dumps(b["s"]) + json.dumps(b["t"]) for b in fd["blocks"] if not b.get("c"))
+            if eof:
+                ctx.ob(k, "inconclusive", "the decoder reads with %s and mentions UnexpectedEof: whether every short read becomes that error is not decided" % cfg.short(nm),
+                       rules.where(fd, bb), fn=fd)
+            else:
+                ctx.violated(k, "the decoder reads with %s, which returns Ok(0) at the end of the input instead of failing: a message that is shorter than it "
+                                "declares is decoded as if it were complete (the framing layer relies on an EOF error to tell incomplete from complete)"
+                             % cfg.short(nm), rules.where(fd, bb), fn=fd)
+    ctx.ob("%s:short-read" % prefix, "held", "no wire decoder reads with a primitive that accepts a short read (%d flagged)" % n, "", sites=1) if n == 0 else None
